@@ -7,7 +7,7 @@ import codec
 import vlib
 
 LEVEL = "model_checking"
-CONC = {"ipfix": ["ipfix/conc_verif_test.go"], "v9": ["netflow9/conc_verif_test.go"]}
+CONC = {"ipfix": ["ipfix/conc_verif_test.go", "ipfix/disc_verif_test.go"], "v9": ["netflow9/conc_verif_test.go"]}
 
 
 def build(ctx, proto, race):
